@@ -8,6 +8,7 @@ import (
 	"encoding/json"
 	"fmt"
 	"os"
+	"strings"
 	"sort"
 	"strconv"
 	"sync"
@@ -260,4 +261,34 @@ func LoadReplay(v any) (bool, error) {
 		return true, fmt.Errorf("replay file %s has no input member", p)
 	}
 	return true, json.Unmarshal(w.Input, v)
+}
+
+// RegressionInputs returns the "input" members of the replay files kept under
+// <VERIF_REGRESS_DIR or /verif/regressions>/<prop>/*.json, by file name.
+func RegressionInputs(prop string) map[string]json.RawMessage {
+	dir := os.Getenv("VERIF_REGRESS_DIR")
+	if dir == "" {
+		dir = "/verif/regressions"
+	}
+	out := map[string]json.RawMessage{}
+	ents, err := os.ReadDir(dir + "/" + prop)
+	if err != nil {
+		return out
+	}
+	for _, e := range ents {
+		if !strings.HasSuffix(e.Name(), ".json") {
+			continue
+		}
+		b, err := os.ReadFile(dir + "/" + prop + "/" + e.Name())
+		if err != nil {
+			continue
+		}
+		var w struct {
+			Input json.RawMessage `json:"input"`
+		}
+		if json.Unmarshal(b, &w) == nil && len(w.Input) > 0 {
+			out[e.Name()] = w.Input
+		}
+	}
+	return out
 }
